@@ -467,8 +467,10 @@ func TestVerif_C07(t *testing.T) {
 					live++
 				}
 			}
-			if n := mocrelay.VerifRouterRegistrySize(router); n > live {
+			if n, _, ok := vk.PeekRouter(router); ok && n > live {
 				rep.Violation("registry/finished-connection-remains", fmt.Sprintf("%d connections are live but the registry holds %d", live, n), map[string]any{"log": w.log})
+			} else if ok {
+				rep.Count("registry_observations", 1)
 			}
 			end := vk.Tick()
 			w.mu.Lock()
@@ -484,7 +486,7 @@ func TestVerif_C07(t *testing.T) {
 					<-c.rdDone
 				}
 			}
-			if n := mocrelay.VerifRouterRegistrySize(router); n != 0 {
+			if n, _, ok := vk.PeekRouter(router); ok && n != 0 {
 				rep.Violation("registry/not-empty-after-all-sessions", fmt.Sprintf("all sessions ended but the registry still holds %d connections", n), map[string]any{"log": w.log})
 			}
 			before := rep.Counter("pairs_must") + rep.Counter("pairs_must-not")
@@ -705,6 +707,9 @@ func TestVerif_C07(t *testing.T) {
 	rep.Require(rep.Counter("backpressure_runs") >= int64(nBP*9/10), "back-pressure runs")
 	rep.Require(rep.Counter("stalled_dropped") > 0, "back-pressure never overflowed a buffer")
 	rep.Require(rep.Counter("hook_hits:router.publish.send") > 100, "verifPoint router.publish.send not reached")
+	if rep.Counter("registry_observations") == 0 {
+		rep.Inconclusive("C07: the router registry could not be observed by reflection (structure changed); the registry clause was not judged")
+	}
 }
 
 func hashStr(s string) uint32 {
